@@ -612,3 +612,4 @@ _R3 = {
 for _k, (_lt, _te) in _R3.items():
     CHECKS[_k]["level_text"] += _lt
     CHECKS[_k]["technique"] += _te
+CHECKS["C09"]["required_classes"]["all"] += ["operation-after-a-failed-fsync-acknowledged-and-durable"]
